@@ -12,7 +12,8 @@ RULE = ('sender against a scripted receiver on the virtual clock: all 137 valid 
         'calls with steps in {0, st/3, st-1 ns, st+1 ns, 5 st} and bursts of calls at one instant. Oracle: between successive Consecutive '
         'Frames at least the separation time of the most recent ContinueToSend (or the override) elapses on the virtual clock; with a zero '
         'separation time one process() call emits every Consecutive Frame up to the end of the block. Plus the exhaustive 256-entry STmin '
-        'decoding table (implementation vs Coq PrimFloat definition vs documented values). All runs replayed on the extracted model.')
+        'decoding table (implementation vs Coq PrimFloat definition vs documented values). All runs replayed on the extracted model.'
+        ' Stray Wait flow controls (refused: wftmax=0) carrying other STmin bytes are mixed in: only a ContinueToSend changes the separation time.')
 ASSUME = ['"handed to the CAN layer" is the processing instant of the virtual clock; pacing by next_cf_delay()/wait_func in the worker thread is runtime']
 
 
